@@ -107,6 +107,9 @@ VF_PROPERTY(msgpack_diff, 5, "arbitrary tree inside an envelope [padding string 
 VF_PROPERTY(json_diff, 3, "same for JSON (UTF-8 without BOM, the common domain of both entry points)") { diff_dyn<JsonArchive>(c, JSON); }
 VF_PROPERTY(xml_diff, 3, "same for XML") { diff_dyn<XmlArchive>(c, XML); }
 
+namespace { struct RevRow { std::string a = "<absent>", a2 = "<absent>", b = "<absent>", c = "<absent>", none = "<absent>";
+	template <class Ar> void Serialize(Ar& ar) { ar << KeyValue("c2", c) << KeyValue("c1", b) << KeyValue("c0", a) << KeyValue("nope", none) << KeyValue("c0", a2); }
+	bool operator==(const RevRow& o) const { return a == o.a && a2 == o.a2 && b == o.b && c == o.c && none == o.none; } }; }
 VF_PROPERTY(csv_diff, 5, "CSV table (1..6 columns, cells with separators, quotes, CRLF, multi-byte characters, long cells that straddle the 256-byte decoding chunk), optionally mutated, loaded by name into maps from memory and from streams: same outcome category and same rows; non-trivial = document longer than one chunk or mutated")
 {
 	Cfg mem; static const char seps[] = { ',', ';', '\t', ' ', '|' }; mem.opt.valuesSeparator = seps[c.src.draw(5)]; const char sep = mem.opt.valuesSeparator;
@@ -126,6 +129,13 @@ VF_PROPERTY(csv_diff, 5, "CSV table (1..6 columns, cells with separators, quotes
 	if (category(o1) != category(o2)) c.fail("memory and stream loading end in different outcome categories", d);
 	if (o1.ok() && t1 != t2) c.fail("memory and stream loading deliver different rows", d);
 	if (!changed && o1.ok() && t1 != table) c.fail("loaded table differs from the saved one", d);
+	// request orders: the same document read by a typed row that asks for the columns in reverse order, for the first column twice and for an absent one
+	std::vector<RevRow> r1, r2; Outcome p1 = load<CsvArchive>(r1, doc, mem), p2 = load<CsvArchive>(r2, doc, sc);
+	const std::string d2 = vf::cat("typed row (reverse order, c0 twice, absent column) size=", doc.size(), changed ? " mutated" : " valid", " [", sc.str(), "] memory => ", p1.str(), " rows=", r1.size(), " | stream => ", p2.str(), " rows=", r2.size(), " doc=", vf::hex(doc.substr(0, 200)));
+	if (category(p1) != category(p2)) c.fail("memory and stream loading end in different outcome categories", d2);
+	if (p1.ok() && !(r1 == r2)) c.fail("memory and stream loading deliver different rows", d2);
+	if (!changed && p1.ok()) { if (r1.size() != table.size()) c.fail("loaded table differs from the saved one", d2); for (size_t i = 0; i < r1.size(); i++) { auto cell = [&](const char* k) { auto it = table[i].find(k); return it == table[i].end() ? std::string("<absent>") : it->second; };
+		if (r1[i].a != cell("c0") || r1[i].a2 != cell("c0") || r1[i].b != cell("c1") || r1[i].c != cell("c2") || r1[i].none != "<absent>") c.fail("loaded table differs from the saved one", vf::cat("row ", i, " | ", d2)); } }
 }
 
 VF_PROPERTY(save_stream_equals_memory, 3, "tree / table saved to memory and to a stream in UTF-8 without BOM (compact and pretty): byte-identical output for MsgPack, JSON, XML and CSV; non-trivial = output longer than 256 bytes or pretty-printed")
